@@ -528,6 +528,14 @@ def replay(pid, path, builder):
             builder.build(sorted(set(j["harness"] for j in P["jobs"] if "harness" in j) | set(P.get("extra_harnesses", []))))
             return pyjobs.replay(dict(pid=pid, path=path, builder=builder, repo=REPO, env=run_env(), job=pyj[0]))
         job = jobs[0]
+    if "engine=valgrind" in hdr:
+        builder.build(["mutread_plain"])
+        r = subprocess.run(["valgrind", "-q", "--error-exitcode=97", builder.exe("mutread_plain"), "--prop", job["prop"], "--replay", os.path.abspath(path), "--out", "/tmp/vgreplay-%d" % os.getpid()],
+                           env={k: v for k, v in os.environ.items() if not k.endswith("SAN_OPTIONS")})
+        if r.returncode != 0:
+            print("VIOLATION property=%s replay=%s" % (pid, path))
+            return 1
+        return 0
     builder.build([job["harness"]])
     rundir = os.path.join(BUILD, "run", "replay-%d" % os.getpid())
     os.makedirs(rundir, exist_ok=True)
